@@ -44,6 +44,8 @@ def plan(tier, seed):
     for c in range(8):
         shards.append(("grains", c, 8, 3 if tier == "quick" else 4))
     shards.append(("sparse",))
+    shards.append(("parvalues",))
+    shards.append(("longlists",))
     k = seed % len(shards)
     return shards[k:] + shards[:k]
 
@@ -245,6 +247,87 @@ def _run_pars(desc):
     return sh
 
 
+PARVALUES = [0, 1, -1, 7, 2 ** 31, -2 ** 31 - 1, 2 ** 53, 2 ** 53 + 1, 10 ** 18 + 3, -(2 ** 63), 123456789012345678901234567890,
+             0.0, -0.0, 1.0, -1.0, 0.5, 0.1 + 0.2, 1.0 / 3.0, 1e15, 1e16, 1e+16 + 2.0, 5e22, 1e100, 1.7976931348623157e308, 5e-324, 1e-5, 1.5e-7,
+             123456789.0, float(2 ** 53), float(2 ** 53) + 2.0, -3e16, 2.5e-300, 6.02214076e23,
+             "P", "abc", "1e5x", "0x10", "a.b", "-", "+", "e5", "1.2.3", "12abc", ".", "--1"]
+
+
+def _run_parvalues(desc):
+    """every value of a table of boundary ints, floats (incl. those printed in exponent form without a decimal point) and strings that do
+    not parse as numbers, alone and in ordered pairs, through saveparameters / read_par_file and through a columnfile header"""
+    from ImageD11 import parameters as P, columnfile as C
+    sh = Shard()
+    wd = workdir("pv")
+    try:
+        n = len(PARVALUES)
+        sets = [(i,) for i in range(n)] + [(i, j) for i in range(n) for j in range(n) if i != j and (i + j) % 7 == 0]
+        for idx in sets:
+            d = {"p%d" % k_: PARVALUES[i] for k_, i in enumerate(idx)}
+            case = {"kind": "parvalues", "values": [repr(v) for v in d.values()]}
+            f = os.path.join(wd, "v.par")
+            P.parameters(**d).saveparameters(f)
+            got = P.read_par_file(f).get_parameters()
+            ok = True
+            for k_, v in d.items():
+                g = got.get(k_, None)
+                if type(g) != type(v) or g != v or (isinstance(v, float) and np.signbit(g) != np.signbit(v)):
+                    sh.violation("parameters:value-or-type", dict(case, name=k_), {"read": repr(g), "written": repr(v)}); ok = False; break
+            if ok and len(idx) == 1:
+                # the same value as a header parameter of a text columnfile
+                cf = C.colfile_from_dict({"sc": np.array([1.0, 2.0]), "fc": np.array([3.0, 4.0])})
+                cf.parameters = P.parameters(**d)
+                fn = os.path.join(wd, "v.flt")
+                cf.writefile(fn)
+                back = C.columnfile(fn).parameters.get_parameters()
+                for k_, v in d.items():
+                    g = back.get(k_, None)
+                    if type(g) != type(v) or g != v:
+                        sh.violation("columnfile-header-parameter:value-or-type", dict(case, name=k_), {"read": repr(g), "written": repr(v)}); break
+            sh.evaluations += 1
+            sh.nontrivial += 1
+        sh.sample(case, limit=1)
+        sh.outcomes.add("parvalues")
+    finally:
+        shutil.rmtree(wd, ignore_errors=True)
+    return sh
+
+
+def _run_longlists(desc):
+    """grain lists longer than one decimal digit of positions (9..12, 25, 101, 112 grains): same order, same content, text and HDF5,
+    two save/load cycles"""
+    from ImageD11 import grain as G
+    sh = Shard()
+    wd = workdir("gl")
+    try:
+        for n in (9, 10, 11, 12, 25, 101, 112):
+            for rot in (0, 3):
+                gl = [make_grain(G, k_, (k_ + rot) % 8) for k_ in range(n)]
+                case = {"kind": "longlists", "n_grains": n, "field_pattern_offset": rot}
+                f = os.path.join(wd, "g.map")
+                G.write_grain_file(f, gl)
+                rd = G.read_grain_file(f)
+                if check_grains(sh, "grain-text", case, rd, gl, True):
+                    G.write_grain_file(os.path.join(wd, "g2.map"), rd)
+                    check_grains(sh, "grain-text:second-cycle", case, G.read_grain_file(os.path.join(wd, "g2.map")), rd, True)
+                h = os.path.join(wd, "g.h5")
+                for fn_ in (h, os.path.join(wd, "g2.h5")):
+                    if os.path.exists(fn_):
+                        os.remove(fn_)
+                G.write_grain_file_h5(h, gl)
+                rh = G.read_grain_file_h5(h)
+                if check_grains(sh, "grain-hdf5", case, rh, gl, False):
+                    G.write_grain_file_h5(os.path.join(wd, "g2.h5"), rh)
+                    check_grains(sh, "grain-hdf5:second-cycle", case, G.read_grain_file_h5(os.path.join(wd, "g2.h5")), gl, False)
+                sh.evaluations += 1
+                sh.nontrivial += 1
+                sh.outcomes.add(("longlist", n))
+        sh.sample(case, limit=1)
+    finally:
+        shutil.rmtree(wd, ignore_errors=True)
+    return sh
+
+
 # ------------------------------------------------------------------------------------------------ C
 UBIS = [np.array([[3.123456789012, 0.000123456789, -1.5], [-0.25, 4.000000001, 0.75], [1e-7, -2.2, 5.55555555555]]),
         np.array([[4.04, 0.0, 0.0], [0.0, 4.04, 0.0], [0.0, 0.0, 4.04]]),
@@ -256,7 +339,8 @@ TRANS = [np.array([123.456789, -0.000123456789, 1e5 + 0.5]), np.array([0.0, -0.0
 
 
 def make_grain(G, idx, combo):
-    g = G.grain(UBIS[idx % 3].copy(), translation=(TRANS[idx % 3].copy() if combo & 1 else None))
+    # grains beyond the third repeat the three lattices, each 0.1% larger than the last (so that every position is recognisable)
+    g = G.grain(UBIS[idx % 3] * (1.0 + 0.001 * (idx // 3)), translation=(TRANS[idx % 3] + float(idx // 3) if combo & 1 else None))
     if combo & 2:
         g.name = "%d:abc_%d.flt" % (idx, idx)
     if combo & 4:
@@ -418,7 +502,7 @@ def _run_sparse(desc):
 
 def run_shard(desc):
     return {"colfile": _run_colfile, "hdf_overwrite": _run_hdf_overwrite, "pars": _run_pars, "grains": _run_grains,
-            "sparse": _run_sparse}[desc[0]](desc)
+            "sparse": _run_sparse, "parvalues": _run_parvalues, "longlists": _run_longlists}[desc[0]](desc)
 
 
 def replay(case):
@@ -435,6 +519,12 @@ def replay(case):
         r = _run_grains(("grains", 0, 1, 3))
         key = "fields_per_grain(1=translation,2=name,4=counts)"
         r.violations = [v for v in r.violations if v["case"][key] == case[key]]
+    elif kind == "parvalues":
+        r = _run_parvalues(("parvalues",))
+        r.violations = [v for v in r.violations if v["case"]["values"] == case["values"]]
+    elif kind == "longlists":
+        r = _run_longlists(("longlists",))
+        r.violations = [v for v in r.violations if v["case"]["n_grains"] == case["n_grains"]]
     else:
         r = _run_sparse(("sparse",))
         r.violations = [v for v in r.violations if v["case"]["mask"] == case["mask"]]
